@@ -72,17 +72,19 @@ Lemma jump_delete_stale_refuted :
   after as_found [(10, SJump [("a", 0); ("b", 1)] [("lab_yes", 1); ("lab_no", 2)])]
         (ODetachDelete 10) ok_inconsistent = true.
 Proof. vm_compute. reflexivity. Qed.
-(* the attribute setter:  x = v0 + v0 ; x.a = v1  drops v0 although x.b still holds it — in the
-   code as found AND after the repairs (recorded as known finding, no pass uses the setter so) *)
-Lemma set_var_refuted fx :
-  after fx [(10, SPlain [("a", 0); ("b", 0)])] (OSetVar 10 "a" 1) ok_inconsistent = true.
-Proof. destruct fx as [[] [] [] [] []]; vm_compute; reflexivity. Qed.
+(* the attribute setter:  x = v0 + v0 ; x.a = v1  drops v0 although x.b still holds it — in every
+   configuration without the repair C03-value-use-setter *)
+Lemma set_var_refuted a b c d e g :
+  after (mk_fixes a b c d e false g) [(10, SPlain [("a", 0); ("b", 0)])] (OSetVar 10 "a" 1)
+        ok_inconsistent = true.
+Proof. destruct a, b, c, d, e, g; vm_compute; reflexivity. Qed.
 
 (* Instruction.remove_from_block on a jump releases the operands but leaves the jump in
-   Block.references of its targets (JumpBase does not override it); no pass does that *)
-Lemma remove_from_block_jump_refuted fx :
-  after fx [(10, SJump [] [("target", 1)])] (ORemoveFromBlock 10) ok_inconsistent = true.
-Proof. destruct fx as [[] [] [] [] []]; vm_compute; reflexivity. Qed.
+   Block.references of its targets — in every configuration without C03-jump-remove-from-block *)
+Lemma remove_from_block_jump_refuted a b c d e f :
+  after (mk_fixes a b c d e f false) [(10, SJump [] [("target", 1)])] (ORemoveFromBlock 10)
+        ok_inconsistent = true.
+Proof. destruct a, b, c, d, e, f; vm_compute; reflexivity. Qed.
 
 (* the witnesses are repaired by the fixes *)
 Lemma witnesses_fixed :
@@ -97,7 +99,9 @@ Lemma witnesses_fixed :
   && after all_fixed [(10, SJump [("a", 0); ("b", 1)] [("lab_yes", 1); ("lab_no", 1)])]
            (ODetachDelete 10) ok_consistent
   && after all_fixed [(10, SJump [("a", 0); ("b", 1)] [("lab_yes", 1); ("lab_no", 2)])]
-           (ODetachDelete 10) ok_consistent = true.
+           (ODetachDelete 10) ok_consistent
+  && after all_fixed [(10, SPlain [("a", 0); ("b", 0)])] (OSetVar 10 "a" 1) ok_consistent
+  && after all_fixed [(10, SJump [] [("target", 1)])] (ORemoveFromBlock 10) ok_consistent = true.
 Proof. vm_compute. reflexivity. Qed.
 
 (* ---------------------------------------------------------------- bounded positive theorem *)
@@ -137,15 +141,17 @@ Definition ops : list op :=
   ++ map (fun p => OReplaceIncoming 0 (fst p) (snd p)) (pairs [1; 2; 3] [[]; [2]; [3]; [2; 3]; [3; 3]])
   ++ map (fun p => OSetTarget 10 (fst p) (snd p)) (pairs ["lab_yes"; "lab_no"; "target"] [1; 2; 3])
   ++ map (fun p => OChangeTarget 10 (fst p) (snd p)) (pairs [1; 2; 3] [1; 2; 3])
+  ++ map (fun p => OSetVar 10 (fst p) (snd p)) (pairs ["a"; "b"] V4)
   ++ [ODetachDelete 10; ORemoveFromBlock 10; ODetachDelete 9; ORemoveFromBlock 9].
 (* an instruction that is still used must not be removed (the passes check is_used first) *)
 Definition op_pre (s : store) (o : op) : bool :=
   match o with
   | ODetachDelete i => match get_ub s i with [] => true | _ => false end
-  | ORemoveFromBlock i =>
-      (* ... and remove_from_block does not release jump targets (see
-         remove_from_block_jump_refuted): the passes only apply it to non-jumps *)
-      match get_ub s i with [] => negb (is_kind s KJump i) | _ => false end
+  | ORemoveFromBlock i => match get_ub s i with [] => true | _ => false end
+  | OSetVar i n _ => match nget i (st_ins s) with
+                     | Some x => match sget n (i_vars x) with Some _ => true | None => false end
+                     | None => false
+                     end
   | OSetTarget i n _ => match nget i (st_ins s) with
                         | Some x => match sget n (i_bmap x) with Some _ => true | None => false end
                         | None => false
